@@ -41,6 +41,9 @@ def run(F, rep, tier):
     # the program's own names
     import c09
     c09.qualified_lookup(F, rep)
+    # "prints every error otherwise": the loader reads every file that is reachable, also through a file that did not parse
+    import c12
+    c12.visit_once(F, rep)
     prelude_yields(F, rep)
 
 
